@@ -5,6 +5,7 @@ import AslProofs.StrOps
 import AslProofs.StrHist
 import AslProofs.StrExtra
 import AslProofs.StrQuery
+import AslProofs.StrDic
 import AslProofs.CsvNum
 /-!
 # C03 — `asl::String` agrees with a byte-string model and stays in bounds
@@ -396,6 +397,21 @@ theorem contains_spec {r : Rep} {s : Bytes} (h : Models r s) :
     (∀ p, r.contains p = true ↔ p <:+: s) ∧ (∀ c, c ≠ 0 → (r.containsChar c = true ↔ c ∈ s)) :=
   ⟨contains_iff h, containsChar_iff h⟩
 
+/-! ## `split(sep1, sep2)` → `Dic` -/
+
+/-- `split(sep1, sep2)` (the loop `dic[piece.substring(0, j)] = piece.substring(j + |sep2|)` over `split(sep1)` with
+    `j = piece.indexOf(sep2) > 0`, on the text the String holds): the keys of the resulting dictionary are distinct, and
+    `(k, v)` is an entry exactly when the LAST piece of the standard split by `sep1` that has key `k` reads
+    `k ++ sep2 ++ v`, where "has key `k`" = `DicEntry`: `k` is non-empty and is followed by the first occurrence of
+    `sep2` in the piece (pieces without `sep2`, or starting with it, contribute nothing; later pieces overwrite) -/
+theorem split_dic {r : Rep} {s : Bytes} (h : Models r s) (sep1 sep2 : Bytes) (hs : sep1 ≠ []) :
+    ((splitDic r.view sep1 sep2).map (·.1)).Nodup ∧
+    ∀ k v, (k, v) ∈ splitDic r.view sep1 sep2 ↔
+      ∃ pre p post, splitAbs sep1 [] s = pre ++ p :: post ∧ DicEntry sep2 p k v ∧
+        ∀ q ∈ post, ∀ v', ¬ DicEntry sep2 q k v' := by
+  rw [h.view]
+  exact splitDic_spec s sep1 sep2 hs
+
 /-! ## G obligations: the storage constants read from the current source are safe
 
 `Gen/StrGen.lean` is regenerated from `include/asl/String.h` and `src/String.cpp` on every run; the model uses those
@@ -454,5 +470,11 @@ example : myltoa (-9223372036854775808) = [45, 57, 50, 50, 51, 51, 55, 50, 48, 5
 example : (ofBytes [78, 111]).bind (fun r => r.isTrue) = some false ∧ (ofBytes [78, 111]).bind (fun r => r.endsWithChar 111) = some true ∧
     (ofBytes [78, 111]).bind (fun r => r.charAt 2) = some 0 ∧
     (ofBytes [78, 111]).map (fun r => (r.contains [111], r.containsChar 78, r.ok)) = some (true, true, true) := by decide +kernel
+/-- `"a=1,b=2,=x,c,a=3".split(",", "=")` = {b: 2, a: 3} -/
+example : splitDic [97, 61, 49, 44, 98, 61, 50, 44, 61, 120, 44, 99, 44, 97, 61, 51] [44] [61] = [([98], [50]), ([97], [51])] := by
+  decide +kernel
+example : DicEntry [61] [97, 61, 51] [97] [51] :=
+  ⟨by simp, rfl, fun i hi => by have : i = 0 := by simpa using hi
+                                subst this; decide⟩
 
 end C03
